@@ -315,12 +315,15 @@ package workceptor
 //@   site call Read INTOBUF: [C05] requires arg1 == buf && lastcall("Seek", 0) == filePos && lastcall("Seek", 1) == nil
 //@   site send * CHUNK: [C05] requires ref(value) == ref(buf) && off(value) == off(buf) && len(value) == n && n == lastcall("Read", 0) && n > 0
 //@        && lastarg("Seek", 1) + n == filePos && filePos == startPos + ownsentbytes() + n
+//@   site send * NOALIAS: [C05] requires forall i int :: 0 <= i && i < ownsends() ==> ref(ownsent("[]byte", i)) != ref(value)
 //@   site call Debug ENDONLYWHENCOMPLETE: [C05] requires finished(unitStatus.State) && filePos >= unitStatus.StdoutSize
 //@   site continue #2 ENDSWHENFINISHED: [C05] requires !(err == io.EOF && finished(lastcall("Status", 0).State) && filePos >= lastcall("Status", 0).StdoutSize)
 //@   loop #2
 //@     invariant POS2: [C05] filePos == startPos + ownsentbytes()
+//@     invariant OLD2: [C05] forall i int :: 0 <= i && i < ownsends() ==> allocated(ownsent("[]byte", i))
 //@   loop #3
 //@     invariant POS3: [C05] filePos == startPos + ownsentbytes()
+//@     invariant OLD3: [C05] forall i int :: 0 <= i && i < ownsends() ==> allocated(ownsent("[]byte", i))
 
 // the mirror of a remote unit's output: every (re)connection asks for the results from the current size of the
 // local copy, appends the reply verbatim to that same file, and stops only when the remote unit is complete and the
